@@ -52,6 +52,10 @@ Definition cut_short_terminates : bool :=
 Definition failure_terminates_and_clears : bool :=
   follows "self.terminate()" "self._worker_comms.clear_keep_order()" handle_exception_body &&
   has "self._workers = []" terminate_body.
+(* starting workers resets the result objects of the main process, worker_init and worker_exit *)
+Definition start_workers_resets : bool :=
+  has "self._cache[MAIN_PROCESS].reset()" start_workers_body && has "self._cache[INIT_FUNC].reset()" start_workers_body &&
+  has "self._cache[EXIT_FUNC].reset()" start_workers_body.
 Definition eq_compares_all_fields : bool :=
   forallb (fun f => has f map_params_eq_fields) map_params_fields.
 
@@ -75,12 +79,14 @@ Record hst := mkH {
   alive : bool; gen : nat;                         (* workers exist; generation number of the instances *)
   w_layout : layout; w_params : mparams; w_ordered : bool;   (* what the live workers were started with / last told *)
   initialized : bool; keep_order : bool;
-  p_layout : layout; p_keep_alive : bool; p_params : option mparams
+  p_layout : layout; p_keep_alive : bool; p_params : option mparams;
+  stale_err : bool                                 (* an error of an EARLIER call is still stored in a permanent result object *)
 }.
 
-Inductive outcome := Ok | Fails | CutShort.
+Inductive outcome := Ok | Fails | FailsPerm | CutShort.
 (* Fails: task/init/exit exception, timeout, worker death, interrupt, nested-map misuse (all through _handle_exception);
-   CutShort: a lazy call whose generator is closed before exhaustion, or whose input iterable raises *)
+   FailsPerm: worker_init / worker_exit raised or timed out, or the main process failed (the error is stored in one of the
+   three permanent result objects); CutShort: a lazy call whose generator is closed before exhaustion, or whose input iterable raises *)
 Inductive hop :=
 | HCall (ordered : bool) (mp : mparams) (o : outcome)
 | HSetLayout (l : layout) | HSetKeepAlive (b : bool) | HStopAndJoin | HTerminate.
@@ -94,15 +100,15 @@ Definition hstep (s : hst) (o : hop) : hst * option obs :=
   | HSetLayout l =>
       (mkH (alive s) (gen s) (w_layout s) (w_params s) (w_ordered s)
            (if setters_reset_comms && negb (layout_eqb l (p_layout s)) then false else initialized s)
-           (keep_order s) l (p_keep_alive s) (p_params s), None)
+           (keep_order s) l (p_keep_alive s) (p_params s) (stale_err s), None)
   | HSetKeepAlive b =>
-      (mkH (alive s) (gen s) (w_layout s) (w_params s) (w_ordered s) (initialized s) (keep_order s) (p_layout s) b (p_params s), None)
+      (mkH (alive s) (gen s) (w_layout s) (w_params s) (w_ordered s) (initialized s) (keep_order s) (p_layout s) b (p_params s) (stale_err s), None)
   | HStopAndJoin =>
       (mkH false (gen s) (w_layout s) (w_params s) (w_ordered s) (initialized s) (keep_order s) (p_layout s) (p_keep_alive s)
-           (p_params s), None)
+           (p_params s) (stale_err s), None)
   | HTerminate =>
       (mkH false (gen s) (w_layout s) (w_params s) (w_ordered s) (initialized s) (keep_order s) (p_layout s) (p_keep_alive s)
-           (p_params s), None)
+           (p_params s) (stale_err s), None)
   | HCall ordered mp out =>
       let ko := if ordered && ordered_calls_set_and_clear_flag then true else keep_order s in
       (* settings changed while workers are alive: restart them *)
@@ -119,6 +125,7 @@ Definition hstep (s : hst) (o : hop) : hst * option obs :=
       let wp2 := if fresh then mp else wp1 in
       let wo2 := if fresh then ko else wo1 in
       let init2 := if fresh then true else initialized s in
+      let stale2 := if fresh && start_workers_resets then false else stale_err s in
       let used_ordered := if helper_chosen_per_chunk then ko else wo2 in
       let ob := mkObs gen2 (negb fresh) (mp_func wp2) used_ordered
                       (if lifespan_read_from_current_params then mp_life wp2 else mp_life (w_params s)) wl2 (mp_tt wp2)
@@ -126,13 +133,16 @@ Definition hstep (s : hst) (o : hop) : hst * option obs :=
       match out with
       | Ok =>
           (mkH (p_keep_alive s) gen2 wl2 wp2 wo2 init2
-               (if ordered_calls_set_and_clear_flag then false else ko) (p_layout s) (p_keep_alive s) (Some mp), Some ob)
+               (if ordered_calls_set_and_clear_flag then false else ko) (p_layout s) (p_keep_alive s) (Some mp) stale2, Some ob)
       | Fails =>
           (mkH (if failure_terminates_and_clears then false else true) gen2 wl2 wp2 wo2 init2
-               (if failure_terminates_and_clears then false else ko) (p_layout s) (p_keep_alive s) (Some mp), None)
+               (if failure_terminates_and_clears then false else ko) (p_layout s) (p_keep_alive s) (Some mp) stale2, None)
+      | FailsPerm =>
+          (mkH (if failure_terminates_and_clears then false else true) gen2 wl2 wp2 wo2 init2
+               (if failure_terminates_and_clears then false else ko) (p_layout s) (p_keep_alive s) (Some mp) true, None)
       | CutShort =>
           (mkH (if cut_short_terminates then false else true) gen2 wl2 wp2 wo2 init2
-               (if ordered_calls_set_and_clear_flag then false else ko) (p_layout s) (p_keep_alive s) (Some mp), None)
+               (if ordered_calls_set_and_clear_flag then false else ko) (p_layout s) (p_keep_alive s) (Some mp) stale2, None)
       end
   end.
 
@@ -145,4 +155,20 @@ Fixpoint hstate (s : hst) (h : list hop) : hst :=
   match h with [] => s | o :: r => hstate (fst (hstep s o)) r end.
 
 Definition mp0 : mparams := mkMP 0 0 0 None false None None None.
-Definition hinit (l : layout) (keep : bool) : hst := mkH false 0 l mp0 false false false l keep None.
+Definition hinit (l : layout) (keep : bool) : hst := mkH false 0 l mp0 false false false l keep None false.
+
+(* does a call that fails through a permanent result object (init / exit / main) surface ITS OWN
+   error?  It does unless an error of an earlier call is still stored at the moment it fails. *)
+Definition surfaces_own (s : hst) (o : hop) : option bool :=
+  match o with
+  | HCall ordered mp FailsPerm =>
+      let alive1 := if alive s && negb (initialized s) then (if changed_settings_restart then false else p_keep_alive s) else alive s in
+      let fresh := negb alive1 && fresh_workers_when_none in
+      Some (negb (if fresh && start_workers_resets then false else stale_err s))
+  | _ => None
+  end.
+Fixpoint hfails (s : hst) (h : list hop) : list bool :=
+  match h with
+  | [] => []
+  | o :: r => (match surfaces_own s o with Some b => [b] | None => [] end) ++ hfails (fst (hstep s o)) r
+  end.
